@@ -412,6 +412,13 @@ def a_entitlement(w: World, val: dict, tag: str) -> List[Ob]:
         what = (f'{role} is sent {show_nf(got)}' if got is not None else f'{role} is not sent {show_nf(want)}')
         obs.append(Ob(R, False, 'entitlement', where, anchor, f'{anchor}: {role} {"gets " + got[0] if got is not None else "misses " + want[0]} {_shape(got if got is not None else want)}',
                       f'[{tag}] seat {s}, message #{diff + 1}: {what}{origin}; the protocol entitles it to {show_nf(want) if want is not None else "nothing more"} at this point'))
+    for k, setting in enumerate(getattr(w, 'board_settings', []) or [], 1):
+        hs = getattr(setting, 'hands', None)
+        if isinstance(hs, AHands):
+            obs.append(Ob(R, hs.consumed_by is None, f'[{tag}] board {k}: the configured deal is left intact (a later board sharing it deals the same 13 cards to every seat)',
+                          'bridge_env/network_bridge/server.py', 'Server.run', 'configured deal consumed',
+                          f'[{tag}] board {k}: the configured deal object is handed to the play engine of {hs.consumed_by}, which removes the cards as they are played; a later board that shares '
+                          f'the object (a replay, `[setting] * n`, `setting._replace(...)`) then tells every seat an empty hand'))
     # a seat thread reads only its own queue; only main feeds it
     srv = w.server_obj
     st = seat_threads(w)
@@ -551,7 +558,11 @@ def a_log(w: World, val: dict, tag: str) -> List[Ob]:
         req(rec.get('board_id') == setting.board_id, 'board id is the configured one', 'log field board_id', f'board_id logged is {rec.get("board_id")!r}, configured {setting.board_id!r}')
         req(rec.get('dealer') == w.seat(b['dealer']), 'dealer is the configured one', 'log field dealer', f'dealer logged is {rec.get("dealer")}, configured {b["dealer"]}')
         deal = rec.get('deal')
-        req(deal is setting.hands, 'deal logged is the configured deal object', 'log field deal', f'deal logged is {deal!r}, not the configured {setting.hands!r}')
+        req(deal is setting.hands or (isinstance(deal, AHands) and deal.origin() is setting.hands and not deal.stale), 'deal logged is the configured deal (the object or a copy taken while it was intact)',
+            'log field deal', f'deal logged is {deal!r}' + (' copied after the play engine had consumed it' if getattr(deal, 'stale', False) else f', not the configured {setting.hands!r}'))
+        req(setting.hands.consumed_by is None, 'the configured deal of the board is left intact (the play engine works on a private copy)', 'configured deal consumed',
+            f'the configured deal object of the board was handed to the play engine of {setting.hands.consumed_by}, which removes the cards as they are played: a later board built on the same '
+            f'object (a replay, `[setting] * n`, `setting._replace(...)`) is dealt empty hands and logs an empty deal')
         req(isinstance(deal, AHands) and deal.consumed_by is None, 'the logged deal was not handed to the play engine (which consumes it)', 'log field deal (consumed)',
             f'the deal object logged was consumed by the play engine of {getattr(deal, "consumed_by", None)} (cards removed as they are played)')
         req(rec.get('dda') is setting.dda, 'dda passed through', 'log field dda', f'dda logged is {rec.get("dda")!r}')
